@@ -452,6 +452,60 @@ def static_dir():
     return _STATIC_DIR[0]
 
 
+PKGS = {'pa': 'vfc08_pa', 'pb': 'vfc08_pb'}     # statement field "pkg" -> importable package name
+
+
+def ensure_packages():
+    """two real packages on disk (under the harness's tempfile directory, removed with it) whose includeme
+    callables give nested configurators a different `.package`: each has templates/page.txt, static/f.txt, locale/
+    and views.py — the SAME relative names in both, different content"""
+    root = os.path.join(static_dir(), 'pkgs')
+    if not os.path.isdir(root):
+        for key, name in PKGS.items():
+            d = os.path.join(root, name)
+            os.makedirs(os.path.join(d, 'templates'))
+            os.makedirs(os.path.join(d, 'static'))
+            os.makedirs(os.path.join(d, 'locale'))
+            open(os.path.join(d, 'templates', 'page.txt'), 'w').write('page-of-%s' % key)
+            open(os.path.join(d, 'static', 'f.txt'), 'w').write('static-of-%s\n' % key)
+            open(os.path.join(d, '__init__.py'), 'w').write('')
+            open(os.path.join(d, 'views.py'), 'w').write(
+                'from pyramid.response import Response\n\n\n'
+                'def v1(context, request):\n    return Response("dotted-view-of-%s")\n' % key)
+    if root not in sys.path:
+        sys.path.insert(0, root)
+    import importlib
+    importlib.invalidate_caches()
+    for name in PKGS.values():
+        m = sys.modules.get(name)
+        if m is None or not os.path.isdir(os.path.dirname(getattr(m, '__file__', '') or '/nonexistent/x')):
+            sys.modules.pop(name, None)
+            sys.modules.pop(name + '.views', None)
+            importlib.import_module(name)
+    return root
+
+
+class AssetRendF:
+    """what a template renderer factory does: resolve the (possibly RELATIVE) spec `info.name` against
+    `info.package` — the package of the configurator whose statement named the renderer"""
+
+    def __init__(self, tag):
+        self.tag = tag
+
+    def __call__(self, info):
+        from pyramid.path import AssetResolver
+        tag = self.tag
+        pkg = getattr(info.package, '__name__', str(info.package))
+        try:
+            text = AssetResolver(info.package).resolve(info.name).stream().read().decode('utf-8')
+        except Exception as e:
+            text = 'unresolved:' + type(e).__name__
+
+        def render(value, system):
+            return 'asset=%s[%s|%s|%s](%s)' % (tag, pkg, info.name, text, value.get('t') if isinstance(value, dict) else value)
+        return render
+
+
 # ------------------------------------------------------------------------------------------------
 # recording registry + logging configurator (the real classes, only instrumented)
 
@@ -754,7 +808,8 @@ def apply_stmt(config, st):
             kw[k] = v
         config.add_route(st['name'], st['pattern'], **kw)
     elif op == 'add_view':
-        config.add_view(make_view(st['tag'], st.get('mode', 'plain')), **_view_kwargs(st))
+        # `dotted`: a dotted name RELATIVE to the configurator's package ('.views.v1')
+        config.add_view(st['dotted'] if st.get('dotted') else make_view(st['tag'], st.get('mode', 'plain')), **_view_kwargs(st))
     elif op == 'add_notfound_view':
         kw = _view_kwargs(st)
         if st.get('append_slash'):
@@ -773,7 +828,7 @@ def apply_stmt(config, st):
     elif op == 'add_view_deriver':
         config.add_view_deriver(deriver(st['tag'], st.get('variant')), name='drv_' + st['tag'], under=st.get('under'), over=st.get('over'))
     elif op == 'add_renderer':
-        config.add_renderer(st['name'] or None, RendF(st['tag']))       # '' = the default renderer
+        config.add_renderer(st['name'] or None, (AssetRendF if st.get('kind') == 'asset' else RendF)(st['tag']))  # '' = default renderer
     elif op == 'set_security_policy':
         config.set_security_policy(Policy(st['tag'], st['allowed']))
     elif op == 'set_default_permission':
@@ -810,7 +865,7 @@ def apply_stmt(config, st):
             kw['cache_max_age'] = st['cache_max_age']
         if st.get('permission'):
             kw['permission'] = st['permission']
-        config.add_static_view(st['name'], static_dir(), **kw)
+        config.add_static_view(st['name'], st['rel'] if st.get('rel') else static_dir(), **kw)   # rel: package-relative spec
     elif op == 'add_subscriber':
         from pyramid.events import NewResponse
         config.add_subscriber(subscriber(st['tag']), NewResponse, **(st.get('custom') or {}))
@@ -827,7 +882,7 @@ def apply_stmt(config, st):
     elif op == 'set_locale_negotiator':
         config.set_locale_negotiator(locale_negotiator)
     elif op == 'add_translation_dirs':
-        config.add_translation_dirs(os.path.join(static_dir(), 'locale'))
+        config.add_translation_dirs(st['rel'] if st.get('rel') else os.path.join(static_dir(), 'locale'))
     elif op == 'set_execution_policy':
         config.set_execution_policy(exec_policy)
     elif op == 'add_traverser':
@@ -860,6 +915,36 @@ def flatten(tree):
 _INC_SEQ = [0]
 
 
+def node_pkg(stmts, node):
+    """package of an include node = the `pkg` of its first direct statement that has one"""
+    for x in node:
+        if not isinstance(x, list) and stmts[x].get('pkg'):
+            return stmts[x]['pkg']
+    return None
+
+
+def fix_pkg_tree(stmts, tree, cur=None):
+    """same declaration order; every statement with a `pkg` ends up directly inside an include node of that package
+    (runs of such statements are wrapped into their own include)"""
+    out, i, tree = [], 0, list(tree)
+    while i < len(tree):
+        x = tree[i]
+        if isinstance(x, list):
+            out.append(fix_pkg_tree(stmts, x, node_pkg(stmts, x)))
+            i += 1
+            continue
+        p = stmts[x].get('pkg')
+        if p and p != cur:
+            run = []
+            while i < len(tree) and not isinstance(tree[i], list) and stmts[tree[i]].get('pkg') == p:
+                run.append(tree[i]); i += 1
+            out.append(run)
+        else:
+            out.append(x); i += 1
+    # a node whose first packaged statement differs from `cur` after wrapping cannot occur: wrapped runs are sub-lists
+    return out
+
+
 def declare_tree(config, stmts, tree, rec):
     """issue the statements of `tree` on `config`; a nested list is a real Configurator.include of a
     harness-defined includeme callable that issues its statements (and further includes) from inside"""
@@ -870,7 +955,12 @@ def declare_tree(config, stmts, tree, rec):
             def includeme(c, x=x):
                 declare_tree(c, stmts, x, rec)
             includeme.__name__ = includeme.__qualname__ = 'inc_%06d' % _INC_SEQ[0]
-            includeme.__module__ = __name__
+            # the includeme belongs to the package of the statements it issues: Configurator.include gives the nested
+            # configurator `package_of(inspect.getmodule(includeme))`
+            p = node_pkg(stmts, x)
+            if p:
+                ensure_packages()
+            includeme.__module__ = PKGS[p] if p else __name__
             config.include(includeme)
         else:
             rec.stmt = x
@@ -929,18 +1019,17 @@ def build_variant(stmts, tree, probes, record=True, stages=None):
         rec.enabled = record
         pre = getattr(stmts, 'pre', None) or []
         if pre:                       # statement set 1, committed before the program proper
-            for i in range(len(pre)):
-                rec.stmt = PRE + i
-                try:
-                    apply_stmt(config, pre[i])
-                finally:
-                    rec.stmt = None
+            if any(s_.get('pkg') for s_ in pre):
+                ensure_packages()
+            declare_tree(config, stmts, fix_pkg_tree(stmts, [PRE + i for i in range(len(pre))]), rec)
             config.commit()
+        if any(s_.get('pkg') for s_ in stmts):
+            ensure_packages()
         if stages is None:
-            declare_tree(config, stmts, tree, rec)
+            declare_tree(config, stmts, fix_pkg_tree(stmts, tree), rec)
         else:
             for stage in stages:
-                declare_tree(config, stmts, stage, rec)
+                declare_tree(config, stmts, fix_pkg_tree(stmts, stage), rec)
                 config.commit()
         app = config.make_wsgi_app()
     except Exception as e:
@@ -990,6 +1079,13 @@ def everything(stmts):
 def carry(case, **kw):
     """a derived case keeps the first-commit statements and the staged flag"""
     out = {'stmts': case['stmts'], 'variants': case['variants']}
+    out.update({k: kw[k] for k in ('stmts', 'variants') if k in kw})
+    if any(s_.get('pkg') for s_ in out['stmts']):       # show the includes the package-relative statements need
+        try:
+            out['variants'] = [fix_pkg_tree(prog_of(dict(case, stmts=out['stmts'])), t) for t in out['variants']]
+            kw = {k: v for k, v in kw.items() if k != 'variants'}
+        except Exception:
+            pass
     if case.get('pre'):
         out['pre'] = case['pre']
     if 'staged' in case:
@@ -1448,6 +1544,8 @@ def gen_program(rng, findings=False):
                           ('set_locale_negotiator', 0.03, {}), ('set_execution_policy', 0.03, {})):
         if rng.random() < pr:
             stmts.append(dict({'op': op}, **extra))
+    if rng.random() < 0.3:
+        stmts += gen_pkg_statements(rng)
     if len(stmts) > 14:
         # drop surplus statements, but not the declarations other statements refer to
         decl = ('add_route', 'add_view_predicate', 'add_route_predicate', 'add_view_deriver')
@@ -1455,6 +1553,40 @@ def gen_program(rng, findings=False):
         drop = set(rng.sample(cand, min(len(cand), len(stmts) - 14)))
         stmts = [s_ for i, s_ in enumerate(stmts) if i not in drop]
     return stmts
+
+
+def gen_pkg_statements(rng):
+    """PACKAGE-RELATIVE statements, issued by configurators of two different packages (harness-made packages
+    vfc08_pa / vfc08_pb): the SAME relative string means a different resource in each — a relative renderer spec
+    ('templates/page.txt', rendered by a factory registered for '.txt' that resolves info.name against info.package), a
+    relative static spec ('static'), a relative dotted view name ('.views.v1'), a relative translation dir"""
+    out = []
+    if rng.random() < 0.9:
+        r = {'op': 'add_renderer', 'name': '.txt', 'tag': 'TXT', 'kind': 'asset'}
+        if rng.random() < 0.3:
+            r['pkg'] = rng.choice(['pa', 'pb'])
+        out.append(r)
+    both = rng.random() < 0.75
+    pk = ['pa', 'pb'] if both else [rng.choice(['pa', 'pb'])]
+    kinds = [k for k in ('tmpl', 'static', 'dotted', 'tdir') if rng.random() < {'tmpl': 0.8, 'static': 0.4, 'dotted': 0.4, 'tdir': 0.08}[k]] or ['tmpl']
+    for k in kinds:
+        for p in pk:
+            if k == 'tmpl':
+                st = {'op': 'add_view', 'tag': 'T' + p, 'name': 't' + p, 'renderer': 'templates/page.txt', 'mode': 'dict', 'pkg': p}
+                if rng.random() < 0.3:
+                    st['permission'] = rng.choice(['p1', 'p2'])
+            elif k == 'static':
+                st = {'op': 'add_static_view', 'name': 's' + p, 'rel': 'static', 'pkg': p}
+            elif k == 'dotted':
+                st = {'op': 'add_view', 'tag': 'D' + p, 'name': 'd' + p, 'dotted': '.views.v1', 'pkg': p}
+            else:
+                if p != pk[0]:
+                    continue                       # translation dirs are order-sensitive among themselves: one per program
+                st = {'op': 'add_translation_dirs', 'rel': 'locale', 'pkg': p}
+            out.append(st)
+    if rng.random() < 0.25:                        # the same relative renderer spec once more, from the application itself
+        out.append({'op': 'add_view', 'tag': 'Tpa2', 'name': 'tpa2', 'renderer': 'templates/page.txt', 'mode': 'dict', 'pkg': 'pa'})
+    return out
 
 
 def gen_pre(rng, stmts):
@@ -1556,6 +1688,8 @@ def gen_variants(rng, stmts, k, m):
         variants.append(list(o))
         for _ in range(m - 1):
             variants.append(random_tree(rng, o))
+    if any(s_.get('pkg') for s_ in stmts):
+        variants = [fix_pkg_tree(stmts, t) for t in variants]
     return variants
 
 
@@ -1784,7 +1918,8 @@ def declared_args(stmts, act):
         out.append(['viewSlot', k])
     out.append(['rendererFactory', "(IRendererFactory, '')"])
     if st.get('renderer'):
-        out.append(['rendererFactory', "(IRendererFactory, %r)" % st['renderer']])
+        rn = st['renderer']
+        out.append(['rendererFactory', "(IRendererFactory, %r)" % (os.path.splitext(rn)[1] if '.' in rn else rn)])
     return out
 
 
@@ -1814,6 +1949,7 @@ def model_case(case, ev):
     for a in acts0:
         args = [[f, key(k) if k is not None else 0] for f, k in declared_args(stmts, a)]
         actions.append({'id': a['aid'], 'kind': a['kind'], 'disc': key(a['disc']), 'args': args,
+                        'pkg': {None: 0, 'pa': 1, 'pb': 2}.get((stmts[a['stmt']] if a['stmt'] is not None else {}).get('pkg'), 0),
                         'vorder': a.get('vorder') if isinstance(a.get('vorder'), int) else None})
     specs = {}
     variants = []
@@ -1987,7 +2123,8 @@ def drop_stmt(case, k):
             elif x != k:
                 out.append(x - 1 if x > k else x)
         return out
-    return carry(case, stmts=case['stmts'][:k] + case['stmts'][k + 1:], variants=[go(t) for t in case['variants']],
+    st2 = case['stmts'][:k] + case['stmts'][k + 1:]
+    return carry(case, stmts=st2, variants=[fix_pkg_tree(st2, go(t)) for t in case['variants']],
                  staged=case.get('staged', True))
 
 
@@ -2029,7 +2166,7 @@ def shrink_case(case, tbl, budget=120):
     # drop optional keys of statements
     for si in range(len(cur['stmts'])):
         for key in list(cur['stmts'][si].keys()):
-            if key in ('op', 'tag', 'name', 'pattern', 'factory', 'permission', 'allowed', 'value'):
+            if key in ('op', 'tag', 'name', 'pattern', 'factory', 'permission', 'allowed', 'value', 'pkg', 'rel', 'dotted', 'kind'):
                 continue
             c = json.loads(json.dumps(cur))
             del c['stmts'][si][key]
@@ -2078,6 +2215,20 @@ def _rf_set(kind, defines, prop=False, reify=False):
 # property / reify) x a view reading request.rm1 — every order x every placement of one include (+ a double nesting)
 RF_SETS = [_rf_set('attr', True), _rf_set('method', True, prop=True), _rf_set('property', True, prop=True, reify=True),
            _rf_set('attr', False), _rf_set('method', True), _rf_set('attr', True, prop=True, reify=True)]
+
+
+PKG_SETS = [   # two packages x the same relative spec x include orders and nestings
+    {'nest': True, 'stmts': [{'op': 'add_renderer', 'name': '.txt', 'tag': 'TXT', 'kind': 'asset'},
+                             {'op': 'add_view', 'tag': 'Tpa', 'name': 'tpa', 'renderer': 'templates/page.txt', 'mode': 'dict', 'pkg': 'pa'},
+                             {'op': 'add_view', 'tag': 'Tpb', 'name': 'tpb', 'renderer': 'templates/page.txt', 'mode': 'dict', 'pkg': 'pb'}]},
+    {'nest': True, 'stmts': [{'op': 'add_static_view', 'name': 'spa', 'rel': 'static', 'pkg': 'pa'},
+                             {'op': 'add_static_view', 'name': 'spb', 'rel': 'static', 'pkg': 'pb'},
+                             {'op': 'add_view', 'tag': 'Dpb', 'name': 'dpb', 'dotted': '.views.v1', 'pkg': 'pb'}]},
+    {'nest': True, 'stmts': [{'op': 'add_view', 'tag': 'Tpa', 'name': 'tpa', 'renderer': 'templates/page.txt', 'mode': 'dict', 'pkg': 'pa'},
+                             {'op': 'add_view', 'tag': 'Tpb', 'name': 'tpb', 'renderer': 'templates/page.txt', 'mode': 'dict', 'pkg': 'pb'},
+                             {'op': 'add_renderer', 'name': '.txt', 'tag': 'TXT', 'kind': 'asset', 'pkg': 'pb'},
+                             {'op': 'add_view', 'tag': 'Dpa', 'name': 'dpa', 'dotted': '.views.v1', 'pkg': 'pa'}]},
+]
 
 
 def nestings(order):
@@ -2137,6 +2288,13 @@ def permutation_cases(stmts, limit=None):
     out = _permutation_cases(stmts, limit)
     if nest:          # every order x every include placement, all compared with the first flat order
         trees = [t for c in out for o in c['variants'] for t in nestings(o)]
+        if any(s_.get('pkg') for s_ in stmts):
+            seen, uniq = set(), []
+            for t in trees:
+                t = fix_pkg_tree(stmts, t)
+                if vfutil.canon(t) not in seen:
+                    seen.add(vfutil.canon(t)); uniq.append(t)
+            trees = uniq
         out = [{'stmts': stmts, 'variants': [trees[0]] + trees[k:k + 40]} for k in range(1, len(trees), 40)]
     if pre:
         for c in out:
@@ -2182,6 +2340,7 @@ def _work(arg):
 
 
 def _pool_map(items, workers=4):
+    ensure_packages()     # (and the two temp packages)
     static_dir()          # created once in the parent (removed by its atexit); forked workers inherit and reuse it
     if len(items) < 8:
         return [_work(x) for x in items]
@@ -2228,6 +2387,8 @@ def run_cases(ctx, named_cases, out):
         for s in r['statuses']:
             vfutil.bump(d['statuses_seen'], s)
         d['probes'] += r['nprobes'] * len(case['variants'])
+        if any(s_.get('pkg') for s_ in case['stmts']):
+            d['multi_package_programs'] = d.get('multi_package_programs', 0) + 1
         d['include_depth_max'] = max(d['include_depth_max'], max((len(a['path']) for x in r['results'] for a in x['actions']), default=0))
         for x in r['results']:
             for a in x['actions']:
@@ -2316,6 +2477,9 @@ def run(ctx):
     for k in ([ctx.seed % len(RF_SETS), (ctx.seed + 1) % len(RF_SETS)] if ctx.tier == 'quick' else range(len(RF_SETS))):
         for c in permutation_cases(RF_SETS[k]):
             named.append(('exhaustive-overlap-%d' % k, c))
+    for k in ([0, 1 + ctx.seed % 2] if ctx.tier == 'quick' else range(len(PKG_SETS))):
+        for c in permutation_cases(PKG_SETS[k]):
+            named.append(('exhaustive-packages-%d' % k, c))
     n = ctx.n(300, 3000)
     kk, m = ctx.n(3, 4), ctx.n(2, 3)
     for i in range(n):
@@ -2342,7 +2506,7 @@ def search(ctx):
     saved, ctx.driver_path = ctx.driver_path, None
     try:
         named = [('all-directives', {'stmts': ALL_DIRECTIVES, 'variants': gen_variants(ctx.rng, ALL_DIRECTIVES, 4, 2)})]
-        for k, s in enumerate(SMALL_SETS + RF_SETS):
+        for k, s in enumerate(SMALL_SETS + RF_SETS + PKG_SETS):
             for c in permutation_cases(s):
                 named.append(('exhaustive-%d' % k, c))
         for i in range(ctx.n(600, 3000)):
@@ -2357,7 +2521,7 @@ def search(ctx):
         ctx.driver_path = saved
     res = finish(ctx, out, tbl)
     return {'violations': res['violations'], 'searched': res['evaluations'], 'exhaustive': True,
-            'scope': 'every permutation (respecting route/route, subscriber/subscriber, tween/tween) of %d fixed statement sets of 3-5 statements (the %d name-overlap sets also in every include placement) + random programs x 8 variants' % (len(SMALL_SETS) + len(RF_SETS), len(RF_SETS))}
+            'scope': 'every permutation (respecting route/route, subscriber/subscriber, tween/tween) of %d fixed statement sets of 3-5 statements (the %d name-overlap sets also in every include placement) + random programs x 8 variants' % (len(SMALL_SETS) + len(RF_SETS) + len(PKG_SETS), len(RF_SETS) + len(PKG_SETS))}
 
 
 def replay(ctx, rep):
